@@ -44,7 +44,7 @@ func Specs() map[string]*PropSpec {
 	strFiles := []string{"memdb/string.go", "memdb/keys.go", "memdb/db.go", "memdb/concurrentmap.go", "memdb/command.go", "memdb/dblock.go", "server/db_manager.go"}
 	add(&PropSpec{ID: "C01", Files: strFiles,
 		Explanation: "Structural necessary conditions of the string/key command semantics, decided for every path of the executors in the anchor files: key and value bytes reach the keyspace unchanged (R9); every path returns a reply (R7); arity/option parsing cannot index outside the argument vector (R1); integer updates are overflow-guarded (R19); an error reply implies nothing was changed (R27); two argument keys that may be the same key are handled safely (R25); read-modify-write stays inside one lock hold (R15r); the named commands are registered (R0). Reply values against the Redis reference are not decided. A stored string is never written through (R9s) and asynchronous expiry re-validates the deadline under the key's stripe before it deletes (R17, timer goroutines included). Option values an executor parses into a local record are read afterwards (R29). Every value stored in the keyspace has one of the dynamic types the readers test for (R30); lock pairing and ordering of the string executors (R14p, R14o).",
-		Rules:       []RuleRef{registeredRule("set", "get", "mset", "mget", "setnx", "setex", "append", "strlen", "getrange", "setrange", "incr", "decr", "incrby", "decrby", "incrbyfloat", "del", "exists", "type", "rename", "keys", "ping"), rR9, rR7, rR1, rR19, rR25, rR27, rR15r, rR17, rR9s, rR29, rR30, rR14pair, rR14order, rR22w, rR31, rR20m, rR9m, rR32, rR30g, rR22m, rR20k, rR9k, rR11e, rR15, rR15m, rR13}})
+		Rules:       []RuleRef{registeredRule("set", "get", "mset", "mget", "setnx", "setex", "append", "strlen", "getrange", "setrange", "incr", "decr", "incrby", "decrby", "incrbyfloat", "del", "exists", "type", "rename", "keys", "ping"), rR9, rR7, rR1, rR19, rR19w, rR25, rR27, rR15r, rR17, rR9s, rR29, rR30, rR14pair, rR14order, rR22w, rR31, rR20m, rR9m, rR32, rR30g, rR22m, rR20k, rR9k, rR11e, rR15, rR15m, rR13}})
 	add(&PropSpec{ID: "C02", Files: []string{"resp/", "server/db_manager.go", "logger/"},
 		Explanation: "Parser robustness and identity, decided on all paths: every index/slice in the parser is proven in range (R1) and every allocation sized from the wire is bounded (R4), so no byte stream can panic the parser goroutine; the connection is consumed only through complete-read primitives and the parser resets after an error (R11); bulk payloads are unmodified sub-slices cut by count (R9p); a protocol error closes the connection without dispatching anything and only well-formed arrays are dispatched (R12c). Exact decode equality for all chunkings is not decided. The parser closes its result channel only after the end-of-stream report or on a done context (R11c).",
 		Rules:       []RuleRef{rR1, rR4, rR11, rR9p, rR12c, rR11c, rR11m, rR31, rR11t, rR5, rR14pair, rR11d}})
